@@ -33,4 +33,12 @@ LEVEL_TEXT = ("Proof: for ALL lists of events (peer messages of every kind with 
               "recvPayload), F22 (embargo lift panic), F24 (self-targeting call), F25 (null Call/Return struct); F26 (a call on "
               "an exported embargoed capability blocks the receive loop) is a known finding outside the environment assumption.")
 LEVEL_NOTE = ("Handler granularity: one event is run to quiescence; interleavings inside a handler and transport faults are "
-              "C09's. The model is hand-written; idgen overflow (2^32-1 ids) is excluded by hypothesis.")
+              "C09's. The model is hand-written; idgen overflow (2^32-1 ids) is excluded by hypothesis. 'Local callers get errors "
+              "rather than hangs' is C08_local_calls_resolve / C08_shut_calls_resolved (= C06_call_resolves_once / "
+              "C06_shut_calls_resolved: safety -- every call has exactly one resolution or holder, none is held by a question after "
+              "shutdown). Events are messages whose segment table and root pointer are readable: frames that are corrupt at that level "
+              "never become events (the transport rejects them: C01/C09); 'byte-level corruption' in the malformed stream is corruption "
+              "below the root. 'Exactly one Unimplemented' holds for messages the Conn can copy into the reply; an unknown message "
+              "that cannot be copied is projected to the event MGarbage, for which no answer is prescribed. An inbound Disembargo with "
+              "senderLoopback context always aborts in the machine (rpc.Conn can succeed when the answer's results are imports: not "
+              "reachable in the machine, whose answers hold local capabilities only).")
